@@ -1,7 +1,708 @@
-//! `view.*` and `impl.view.*` operations (stub; filled in by the owner of this family).
-#![allow(unused_imports, dead_code)]
+//! `view.*` operations: typed views of ICMPv4 / ICMPv6 / NDP / IGMP / ARP (property C17).
+//! Every accessor of the result is printed; sub-slices as `(offset,len)` relative to the input.
 use crate::util::*;
+use etherparse::err::LenError;
+use etherparse::icmpv6::{
+    Icmpv6Payload, Icmpv6PayloadSlice, MtuOptionSlice, NdpOptionHeader, NdpOptionReadError,
+    NdpOptionSlice, NdpOptionsIterator, PrefixInformationOptionSlice, RedirectedHeaderOptionSlice,
+    SourceLinkLayerAddressOptionSlice, TargetLinkLayerAddressOptionSlice, UnknownNdpOptionSlice,
+};
+use etherparse::igmp::ReportGroupRecordV3Header;
+use etherparse::*;
 
-pub fn run(_op: &str, _a: &[&str]) -> Option<String> {
-    None
+fn len_err(e: &LenError) -> String {
+    format!(
+        "err(len(req={},len={},src={:?},layer={:?},off={}))",
+        e.required_len, e.len, e.len_source, e.layer, e.layer_start_offset
+    )
+}
+
+fn opt_usize(v: Option<usize>) -> String {
+    match v {
+        None => "none".to_string(),
+        Some(n) => format!("some({})", n),
+    }
+}
+
+fn b01(b: bool) -> u8 {
+    if b {
+        1
+    } else {
+        0
+    }
+}
+
+fn echo(h: &IcmpEchoHeader) -> String {
+    format!("id={},seq={}", h.id, h.seq)
+}
+
+fn icmp4_type(t: &Icmpv4Type) -> String {
+    use Icmpv4Type::*;
+    match t {
+        Unknown {
+            type_u8,
+            code_u8,
+            bytes5to8,
+        } => format!(
+            "Unknown(type={},code={},b58={})",
+            type_u8,
+            code_u8,
+            to_hex(bytes5to8)
+        ),
+        EchoReply(h) => format!("EchoReply({})", echo(h)),
+        DestinationUnreachable(h) => {
+            use icmpv4::DestUnreachableHeader::*;
+            let s = match h {
+                Network => "Network()".to_string(),
+                Host => "Host()".to_string(),
+                Protocol => "Protocol()".to_string(),
+                Port => "Port()".to_string(),
+                FragmentationNeeded { next_hop_mtu } => {
+                    format!("FragmentationNeeded(mtu={})", next_hop_mtu)
+                }
+                SourceRouteFailed => "SourceRouteFailed()".to_string(),
+                NetworkUnknown => "NetworkUnknown()".to_string(),
+                HostUnknown => "HostUnknown()".to_string(),
+                Isolated => "Isolated()".to_string(),
+                NetworkProhibited => "NetworkProhibited()".to_string(),
+                HostProhibited => "HostProhibited()".to_string(),
+                TosNetwork => "TosNetwork()".to_string(),
+                TosHost => "TosHost()".to_string(),
+                FilterProhibited => "FilterProhibited()".to_string(),
+                HostPrecedenceViolation => "HostPrecedenceViolation()".to_string(),
+                PrecedenceCutoff => "PrecedenceCutoff()".to_string(),
+            };
+            format!("DestinationUnreachable.{}", s)
+        }
+        Redirect(h) => format!(
+            "Redirect.{:?}(gw={})",
+            h.code,
+            to_hex(&h.gateway_internet_address)
+        ),
+        EchoRequest(h) => format!("EchoRequest({})", echo(h)),
+        TimeExceeded(c) => format!("TimeExceeded.{:?}()", c),
+        ParameterProblem(h) => {
+            use icmpv4::ParameterProblemHeader::*;
+            match h {
+                PointerIndicatesError(p) => {
+                    format!("ParameterProblem.PointerIndicatesError(ptr={})", p)
+                }
+                MissingRequiredOption => "ParameterProblem.MissingRequiredOption()".to_string(),
+                BadLength => "ParameterProblem.BadLength()".to_string(),
+            }
+        }
+        TimestampRequest(m) => format!(
+            "TimestampRequest(id={},seq={},orig={},recv={},xmit={})",
+            m.id, m.seq, m.originate_timestamp, m.receive_timestamp, m.transmit_timestamp
+        ),
+        TimestampReply(m) => format!(
+            "TimestampReply(id={},seq={},orig={},recv={},xmit={})",
+            m.id, m.seq, m.originate_timestamp, m.receive_timestamp, m.transmit_timestamp
+        ),
+    }
+}
+
+fn icmp4(b: &[u8]) -> String {
+    let sl = match Icmpv4Slice::from_slice(b) {
+        Err(e) => len_err(&e),
+        Ok(s) => {
+            let ty = s.icmp_type();
+            let hd = s.header();
+            // header() is icmp_type() + checksum(); print a marker if they ever differ
+            let same = if hd.icmp_type == ty && hd.checksum == s.checksum() {
+                ""
+            } else {
+                ",header-differs"
+            };
+            format!(
+                "ok(type={},hl={},pl={},t={},c={},ck={},b58={},sl={},thl={},fps={}{})",
+                icmp4_type(&ty),
+                s.header_len(),
+                win(b, s.payload()),
+                s.type_u8(),
+                s.code_u8(),
+                s.checksum(),
+                to_hex(&s.bytes5to8()),
+                win(b, s.slice()),
+                ty.header_len(),
+                opt_usize(ty.fixed_payload_size()),
+                same
+            )
+        }
+    };
+    let hd = match Icmpv4Header::from_slice(b) {
+        Err(e) => len_err(&e),
+        Ok((h, rest)) => {
+            let extra = if h.header_len() != h.icmp_type.header_len()
+                || h.fixed_payload_size() != h.icmp_type.fixed_payload_size()
+            {
+                ",header-len-differs"
+            } else {
+                ""
+            };
+            format!(
+                "ok(type={},ck={},rest={}{})",
+                icmp4_type(&h.icmp_type),
+                h.checksum,
+                win(b, rest),
+                extra
+            )
+        }
+    };
+    format!("sl={};hd={}", sl, hd)
+}
+
+fn icmp6_type(t: &Icmpv6Type) -> String {
+    use Icmpv6Type::*;
+    match t {
+        Unknown {
+            type_u8,
+            code_u8,
+            bytes5to8,
+        } => format!(
+            "Unknown(type={},code={},b58={})",
+            type_u8,
+            code_u8,
+            to_hex(bytes5to8)
+        ),
+        DestinationUnreachable(c) => format!("DestinationUnreachable.{:?}()", c),
+        PacketTooBig { mtu } => format!("PacketTooBig(mtu={})", mtu),
+        TimeExceeded(c) => format!("TimeExceeded.{:?}()", c),
+        ParameterProblem(h) => format!("ParameterProblem.{:?}(ptr={})", h.code, h.pointer),
+        EchoRequest(h) => format!("EchoRequest({})", echo(h)),
+        EchoReply(h) => format!("EchoReply({})", echo(h)),
+        RouterSolicitation => "RouterSolicitation()".to_string(),
+        RouterAdvertisement(h) => format!(
+            "RouterAdvertisement(hop={},m={},o={},life={})",
+            h.cur_hop_limit,
+            b01(h.managed_address_config),
+            b01(h.other_config),
+            h.router_lifetime
+        ),
+        NeighborSolicitation => "NeighborSolicitation()".to_string(),
+        NeighborAdvertisement(h) => format!(
+            "NeighborAdvertisement(r={},s={},o={})",
+            b01(h.router),
+            b01(h.solicited),
+            b01(h.r#override)
+        ),
+        Redirect => "Redirect()".to_string(),
+    }
+}
+
+fn icmp6(b: &[u8]) -> String {
+    let sl = match Icmpv6Slice::from_slice(b) {
+        Err(e) => len_err(&e),
+        Ok(s) => {
+            let ty = s.icmp_type();
+            let hd = s.header();
+            let same = if hd.icmp_type == ty && hd.checksum == s.checksum() {
+                ""
+            } else {
+                ",header-differs"
+            };
+            format!(
+                "ok(type={},hl={},pl={},t={},c={},ck={},b58={},sl={},tt={},tc={},thl={},fps={}{})",
+                icmp6_type(&ty),
+                s.header_len(),
+                win(b, s.payload()),
+                s.type_u8(),
+                s.code_u8(),
+                s.checksum(),
+                to_hex(&s.bytes5to8()),
+                win(b, s.slice()),
+                ty.type_u8(),
+                ty.code_u8(),
+                ty.header_len(),
+                opt_usize(ty.fixed_payload_size()),
+                same
+            )
+        }
+    };
+    let hd = match Icmpv6Header::from_slice(b) {
+        Err(e) => len_err(&e),
+        Ok((h, rest)) => {
+            let extra = if h.header_len() != h.icmp_type.header_len()
+                || h.fixed_payload_size() != h.icmp_type.fixed_payload_size()
+            {
+                ",header-len-differs"
+            } else {
+                ""
+            };
+            format!(
+                "ok(type={},ck={},rest={}{})",
+                icmp6_type(&h.icmp_type),
+                h.checksum,
+                win(b, rest),
+                extra
+            )
+        }
+    };
+    format!("sl={};hd={}", sl, hd)
+}
+
+fn ndp_err(e: &NdpOptionReadError) -> String {
+    use NdpOptionReadError::*;
+    match e {
+        UnexpectedEndOfSlice {
+            option_id,
+            expected_size,
+            actual_size,
+        } => format!(
+            "UnexpectedEndOfSlice(id={},exp={},act={})",
+            option_id.0, expected_size, actual_size
+        ),
+        ZeroLength { option_id } => format!("ZeroLength(id={})", option_id.0),
+        UnexpectedSize {
+            option_id,
+            expected_size,
+            actual_size,
+        } => format!(
+            "UnexpectedSize(id={},exp={},act={})",
+            option_id.0, expected_size, actual_size
+        ),
+        UnexpectedHeader {
+            expected_option_id,
+            actual_option_id,
+            expected_length_units,
+            actual_length_units,
+        } => format!(
+            "UnexpectedHeader(eid={},aid={},eu={},au={})",
+            expected_option_id.0, actual_option_id.0, expected_length_units, actual_length_units
+        ),
+        _ => "OtherNdpError()".to_string(),
+    }
+}
+
+fn sll(base: &[u8], o: &SourceLinkLayerAddressOptionSlice) -> String {
+    let _ = o.option_type();
+    format!(
+        "SourceLinkLayerAddress(w={},addr={})",
+        win(base, o.as_bytes()),
+        win(base, o.link_layer_address())
+    )
+}
+
+fn tll(base: &[u8], o: &TargetLinkLayerAddressOptionSlice) -> String {
+    format!(
+        "TargetLinkLayerAddress(w={},addr={})",
+        win(base, o.as_bytes()),
+        win(base, o.link_layer_address())
+    )
+}
+
+fn prefix(base: &[u8], o: &PrefixInformationOptionSlice) -> String {
+    let pi = o.prefix_information();
+    let same = if pi.prefix_length == o.prefix_length()
+        && pi.on_link == o.on_link()
+        && pi.autonomous_address_configuration == o.autonomous_address_configuration()
+        && pi.valid_lifetime == o.valid_lifetime()
+        && pi.preferred_lifetime == o.preferred_lifetime()
+        && pi.prefix == o.prefix()
+    {
+        ""
+    } else {
+        ",struct-differs"
+    };
+    format!(
+        "PrefixInformation(w={},plen={},l={},a={},valid={},pref={},prefix={}{})",
+        win(base, o.as_bytes()),
+        o.prefix_length(),
+        b01(o.on_link()),
+        b01(o.autonomous_address_configuration()),
+        o.valid_lifetime(),
+        o.preferred_lifetime(),
+        to_hex(&o.prefix()),
+        same
+    )
+}
+
+fn redirected(base: &[u8], o: &RedirectedHeaderOptionSlice) -> String {
+    format!(
+        "RedirectedHeader(w={},pkt={})",
+        win(base, o.as_bytes()),
+        win(base, o.redirected_packet())
+    )
+}
+
+fn mtu(base: &[u8], o: &MtuOptionSlice) -> String {
+    format!("Mtu(w={},mtu={})", win(base, o.as_bytes()), o.mtu())
+}
+
+fn unknown_opt(base: &[u8], o: &UnknownNdpOptionSlice) -> String {
+    format!(
+        "Unknown(w={},type={},data={})",
+        win(base, o.as_bytes()),
+        o.option_type().0,
+        win(base, o.data())
+    )
+}
+
+fn ndp_opt(base: &[u8], o: &NdpOptionSlice) -> String {
+    // the enum-level accessors must agree with the variant-level ones
+    let s = match o {
+        NdpOptionSlice::SourceLinkLayerAddress(v) => sll(base, v),
+        NdpOptionSlice::TargetLinkLayerAddress(v) => tll(base, v),
+        NdpOptionSlice::PrefixInformation(v) => prefix(base, v),
+        NdpOptionSlice::RedirectedHeader(v) => redirected(base, v),
+        NdpOptionSlice::Mtu(v) => mtu(base, v),
+        NdpOptionSlice::Unknown(v) => unknown_opt(base, v),
+        _ => "OtherNdpOption()".to_string(),
+    };
+    let w = win(base, o.as_bytes());
+    if !s.contains(&format!("(w={}", w)) || o.as_bytes().first().copied() != Some(o.option_type().0)
+    {
+        return format!("{}!enum-accessors-differ", s);
+    }
+    s
+}
+
+fn ndp_step(base: &[u8], it: &mut NdpOptionsIterator) -> String {
+    match it.next() {
+        None => "none".to_string(),
+        Some(Ok(o)) => format!("some({})", ndp_opt(base, &o)),
+        Some(Err(e)) => format!("some(err({}))", ndp_err(&e)),
+    }
+}
+
+/// iterate an option area (`area` lies inside `base`): at most len/8+3 steps, then two more calls.
+fn ndp_iterate(base: &[u8], mut it: NdpOptionsIterator) -> String {
+    let max = it.rest().len() / 8 + 3;
+    let mut items: Vec<String> = Vec::new();
+    let mut steps = 0usize;
+    let mut runaway = false;
+    loop {
+        if steps >= max {
+            runaway = true;
+            break;
+        }
+        match it.next() {
+            None => break,
+            Some(Ok(o)) => items.push(format!("{}@{}", ndp_opt(base, &o), win(base, it.rest()))),
+            Some(Err(e)) => items.push(format!("err({})@{}", ndp_err(&e), it.rest().len())),
+        }
+        steps += 1;
+    }
+    let body = format!("[{}]", items.join(","));
+    if runaway {
+        return format!("{};runaway", body);
+    }
+    let a = ndp_step(base, &mut it);
+    let b = ndp_step(base, &mut it);
+    format!("{};tail={},{}", body, a, b)
+}
+
+fn ndp_opt_single(kind: &str, s: &[u8]) -> Option<String> {
+    fn wrap(r: Result<String, NdpOptionReadError>) -> String {
+        match r {
+            Ok(v) => format!("ok({})", v),
+            Err(e) => format!("err({})", ndp_err(&e)),
+        }
+    }
+    Some(match kind {
+        "sll" => wrap(SourceLinkLayerAddressOptionSlice::from_slice(s).map(|o| sll(s, &o))),
+        "tll" => wrap(TargetLinkLayerAddressOptionSlice::from_slice(s).map(|o| tll(s, &o))),
+        "prefix" => wrap(PrefixInformationOptionSlice::from_slice(s).map(|o| prefix(s, &o))),
+        "redirected" => wrap(RedirectedHeaderOptionSlice::from_slice(s).map(|o| redirected(s, &o))),
+        "mtu" => wrap(MtuOptionSlice::from_slice(s).map(|o| mtu(s, &o))),
+        "unknown" => wrap(UnknownNdpOptionSlice::from_slice(s).map(|o| unknown_opt(s, &o))),
+        "header" => match NdpOptionHeader::from_slice(s) {
+            Err(e) => format!("err({})", ndp_err(&e)),
+            Ok((h, rest)) => format!(
+                "ok(type={},units={},blen={},rest={})",
+                h.option_type.0,
+                h.length_units,
+                h.byte_len(),
+                win(s, rest)
+            ),
+        },
+        _ => return None,
+    })
+}
+
+fn addr6(a: core::net::Ipv6Addr) -> String {
+    to_hex(&a.octets())
+}
+
+fn payload6(b: &[u8], r: Result<Icmpv6PayloadSlice, LenError>) -> String {
+    let p = match r {
+        Err(e) => return len_err(&e),
+        Ok(p) => p,
+    };
+    let sl = win(b, p.slice());
+    // to_payload(): Some((fixed part struct, options)) for the NDP kinds
+    let tp = match p.to_payload() {
+        None => "none".to_string(),
+        Some((pl, opts)) => {
+            let f = match pl {
+                Icmpv6Payload::RouterSolicitation(_) => String::new(),
+                Icmpv6Payload::RouterAdvertisement(v) => {
+                    format!("reachable={},retrans={},", v.reachable_time, v.retrans_timer)
+                }
+                Icmpv6Payload::NeighborSolicitation(v) => {
+                    format!("target={},", addr6(v.target_address))
+                }
+                Icmpv6Payload::NeighborAdvertisement(v) => {
+                    format!("target={},", addr6(v.target_address))
+                }
+                Icmpv6Payload::Redirect(v) => format!(
+                    "target={},dest={},",
+                    addr6(v.target_address),
+                    addr6(v.destination_address)
+                ),
+                _ => "other,".to_string(),
+            };
+            format!("some({}opts={})", f, win(b, opts))
+        }
+    };
+    match &p {
+        Icmpv6PayloadSlice::DestinationUnreachable(v) => format!(
+            "DestinationUnreachable(sl={},data={},tp={})",
+            sl,
+            win(b, v.invoking_packet()),
+            tp
+        ),
+        Icmpv6PayloadSlice::PacketTooBig(v) => format!(
+            "PacketTooBig(sl={},data={},tp={})",
+            sl,
+            win(b, v.invoking_packet()),
+            tp
+        ),
+        Icmpv6PayloadSlice::TimeExceeded(v) => format!(
+            "TimeExceeded(sl={},data={},tp={})",
+            sl,
+            win(b, v.invoking_packet()),
+            tp
+        ),
+        Icmpv6PayloadSlice::ParameterProblem(v) => format!(
+            "ParameterProblem(sl={},data={},tp={})",
+            sl,
+            win(b, v.invoking_packet()),
+            tp
+        ),
+        Icmpv6PayloadSlice::EchoRequest(v) => {
+            format!("EchoRequest(sl={},data={},tp={})", sl, win(b, v.data()), tp)
+        }
+        Icmpv6PayloadSlice::EchoReply(v) => {
+            format!("EchoReply(sl={},data={},tp={})", sl, win(b, v.data()), tp)
+        }
+        Icmpv6PayloadSlice::RouterSolicitation(v) => format!(
+            "RouterSolicitation(sl={},opts={},tp={},it={})",
+            sl,
+            win(b, v.options()),
+            tp,
+            ndp_iterate(b, v.options_iterator())
+        ),
+        Icmpv6PayloadSlice::RouterAdvertisement(v) => format!(
+            "RouterAdvertisement(sl={},reachable={},retrans={},opts={},tp={},it={})",
+            sl,
+            v.reachable_time(),
+            v.retrans_timer(),
+            win(b, v.options()),
+            tp,
+            ndp_iterate(b, v.options_iterator())
+        ),
+        Icmpv6PayloadSlice::NeighborSolicitation(v) => format!(
+            "NeighborSolicitation(sl={},target={},opts={},tp={},it={})",
+            sl,
+            addr6(v.target_address()),
+            win(b, v.options()),
+            tp,
+            ndp_iterate(b, v.options_iterator())
+        ),
+        Icmpv6PayloadSlice::NeighborAdvertisement(v) => format!(
+            "NeighborAdvertisement(sl={},target={},opts={},tp={},it={})",
+            sl,
+            addr6(v.target_address()),
+            win(b, v.options()),
+            tp,
+            ndp_iterate(b, v.options_iterator())
+        ),
+        Icmpv6PayloadSlice::Redirect(v) => format!(
+            "Redirect(sl={},target={},dest={},opts={},tp={},it={})",
+            sl,
+            addr6(v.target_address()),
+            addr6(v.destination_address()),
+            win(b, v.options()),
+            tp,
+            ndp_iterate(b, v.options_iterator())
+        ),
+        Icmpv6PayloadSlice::Raw(_) => format!("Raw(sl={},tp={})", sl, tp),
+        _ => "OtherPayload()".to_string(),
+    }
+}
+
+fn icmp6_payload(b: &[u8]) -> String {
+    match Icmpv6Slice::from_slice(b) {
+        Err(e) => len_err(&e),
+        Ok(s) => {
+            let ps = payload6(b, s.payload_slice());
+            let ty = s.icmp_type();
+            let tps = payload6(b, ty.payload_slice(s.payload()));
+            // payload_from_slice = payload_slice().map(to_payload): must agree in Ok/Err
+            let pfs = ty.payload_from_slice(s.payload());
+            let extra = if pfs.is_ok() != ty.payload_slice(s.payload()).is_ok() {
+                ";payload-from-slice-differs"
+            } else {
+                ""
+            };
+            format!("ok(ps={};tps={}{})", ps, tps, extra)
+        }
+    }
+}
+
+fn igmp_type(t: &IgmpType) -> String {
+    use IgmpType::*;
+    match t {
+        MembershipQuery(v) => format!(
+            "MembershipQuery(max_resp={},group={})",
+            v.max_response_time,
+            to_hex(&v.group_address.octets)
+        ),
+        MembershipQueryWithSources(v) => format!(
+            "MembershipQueryWithSources(max_resp_code={},group={},raw8={},flags={},s={},qrv={},qqic={},nsrc={})",
+            v.max_response_code.0,
+            to_hex(&v.group_address.octets),
+            v.raw_byte_8,
+            v.flags(),
+            b01(v.s_flag()),
+            v.qrv().value(),
+            v.qqic,
+            v.num_of_sources
+        ),
+        MembershipReportV1(v) => {
+            format!("MembershipReportV1(group={})", to_hex(&v.group_address.octets))
+        }
+        MembershipReportV2(v) => {
+            format!("MembershipReportV2(group={})", to_hex(&v.group_address.octets))
+        }
+        MembershipReportV3(v) => format!(
+            "MembershipReportV3(flags={},nrec={})",
+            to_hex(&v.flags),
+            v.num_of_records
+        ),
+        LeaveGroup(v) => format!("LeaveGroup(group={})", to_hex(&v.group_address.octets)),
+        Unknown(v) => format!(
+            "Unknown(type={},b1={},b47={})",
+            v.igmp_type,
+            v.raw_byte_1,
+            to_hex(&v.raw_bytes_4_7)
+        ),
+    }
+}
+
+fn igmp(b: &[u8]) -> String {
+    match IgmpHeader::from_slice(b) {
+        Err(e) => len_err(&e),
+        Ok((h, rest)) => {
+            let tenths = match &h.igmp_type {
+                IgmpType::MembershipQueryWithSources(v) => {
+                    v.max_response_code.as_10th_secs().to_string()
+                }
+                _ => "-".to_string(),
+            };
+            format!(
+                "ok(type={},hl={},rest={},ck={},tenths={})",
+                igmp_type(&h.igmp_type),
+                h.header_len(),
+                win(b, rest),
+                h.checksum,
+                tenths
+            )
+        }
+    }
+}
+
+fn igmp_record(b: &[u8]) -> String {
+    match ReportGroupRecordV3Header::from_slice(b) {
+        Err(e) => len_err(&e),
+        Ok((h, rest)) => format!(
+            "ok(type=GroupRecord(type={},aux={},nsrc={},addr={}),hl={},rest={})",
+            h.record_type.0,
+            h.aux_data_len,
+            h.num_of_sources,
+            to_hex(&h.multicast_address),
+            ReportGroupRecordV3Header::LEN,
+            win(b, rest)
+        ),
+    }
+}
+
+fn eth_ipv4(r: Result<ArpEthIpv4Packet, err::arp::ArpEthIpv4FromError>) -> String {
+    use err::arp::ArpEthIpv4FromError::*;
+    match r {
+        Ok(p) => {
+            let addr_ok = p.sender_ipv4_addr().octets() == p.sender_ipv4
+                && p.target_ipv4_addr().octets() == p.target_ipv4;
+            format!(
+                "ok(ArpEthIpv4(op={},smac={},sip={},tmac={},tip={}){})",
+                p.operation.0,
+                to_hex(&p.sender_mac),
+                to_hex(&p.sender_ipv4),
+                to_hex(&p.target_mac),
+                to_hex(&p.target_ipv4),
+                if addr_ok { "" } else { ",addr-accessor-differs" }
+            )
+        }
+        Err(NonMatchingHwType(t)) => format!("err(NonMatchingHwType({}))", t.0),
+        Err(NonMatchingProtocolType(t)) => format!("err(NonMatchingProtocolType({}))", t.0),
+        Err(NonMatchingHwAddrSize(n)) => format!("err(NonMatchingHwAddrSize({}))", n),
+        Err(NonMatchingProtoAddrSize(n)) => format!("err(NonMatchingProtoAddrSize({}))", n),
+    }
+}
+
+fn arp_eth_ipv4(b: &[u8]) -> String {
+    let sl = match ArpPacketSlice::from_slice(b) {
+        Err(e) => len_err(&e),
+        Ok(s) => format!(
+            "ok(w={},hrd={},pro={},hln={},pln={},op={},sha={},spa={},tha={},tpa={})",
+            win(b, s.slice()),
+            s.hw_addr_type().0,
+            s.proto_addr_type().0,
+            s.hw_addr_size(),
+            s.proto_addr_size(),
+            s.operation().0,
+            win(b, s.sender_hw_addr()),
+            win(b, s.sender_protocol_addr()),
+            win(b, s.target_hw_addr()),
+            win(b, s.target_protocol_addr())
+        ),
+    };
+    match ArpPacket::from_slice(b) {
+        Err(e) => format!("sl={};pk={}", sl, len_err(&e)),
+        Ok(pk) => {
+            let pks = format!(
+                "ok(hrd={},pro={},hln={},pln={},op={},sha={},spa={},tha={},tpa={})",
+                pk.hw_addr_type.0,
+                pk.proto_addr_type.0,
+                pk.hw_addr_size(),
+                pk.protocol_addr_size(),
+                pk.operation.0,
+                to_hex(pk.sender_hw_addr()),
+                to_hex(pk.sender_protocol_addr()),
+                to_hex(pk.target_hw_addr()),
+                to_hex(pk.target_protocol_addr())
+            );
+            let v = eth_ipv4(pk.try_eth_ipv4());
+            let tf = eth_ipv4(ArpEthIpv4Packet::try_from(pk));
+            format!("sl={};pk={};v={};tf={}", sl, pks, v, tf)
+        }
+    }
+}
+
+pub fn run(op: &str, a: &[&str]) -> Option<String> {
+    Some(match (op, a) {
+        ("view.icmp4", [h]) => icmp4(&hex(h)?),
+        ("view.icmp6", [h]) => icmp6(&hex(h)?),
+        ("view.icmp6_payload", [h]) => icmp6_payload(&hex(h)?),
+        ("view.ndp_opts", [h]) => {
+            let b = hex(h)?;
+            ndp_iterate(&b, NdpOptionsIterator::from_slice(&b))
+        }
+        ("view.ndp_opt", [k, h]) => ndp_opt_single(k, &hex(h)?)?,
+        ("view.igmp", [h]) => igmp(&hex(h)?),
+        ("view.igmp_record", [h]) => igmp_record(&hex(h)?),
+        ("view.arp_eth_ipv4", [h]) => arp_eth_ipv4(&hex(h)?),
+        _ => return None,
+    })
 }
